@@ -185,6 +185,8 @@ struct Rec {
     table: Vec<(Key, Trie)>,
     index: HashMap<Key, usize>,
     anomalies: Vec<String>,
+    /// real mode: reasons why this history cannot be recorded (it is skipped)
+    skips: Vec<String>,
 }
 
 #[cfg(taffy_verif)]
@@ -241,7 +243,19 @@ impl Rec {
         let (pw, ph) = match pre.probe(nq, fr.nid, &fr.linput) {
             Some(o) => (o.size.width.to_bits(), o.size.height.to_bits()),
             None => {
-                self.anomalies.push(format!("probe: node {n} input {} has no cache entry after its {}", fr.input, if fr.hit { "hit" } else { "miss" }));
+                // a key that does not match itself (NaN known dimension; NaN / infinite definite available space on an axis without
+                // known dimension) cannot be probed -- Cache::get misses its own entry: the history is skipped, not reported
+                let i = &fr.linput;
+                let bad = |k: Option<f32>, a: AvailableSpace| match (k, a) {
+                    (Some(x), _) => x.is_nan(),
+                    (None, AvailableSpace::Definite(x)) => !x.is_finite(),
+                    _ => false,
+                };
+                if bad(i.known_dimensions.width, i.available_space.width) || bad(i.known_dimensions.height, i.available_space.height) {
+                    self.skips.push(format!("probe impossible: node {n} input {} has a key that does not match itself", fr.input));
+                } else {
+                    self.anomalies.push(format!("probe: node {n} input {} has no cache entry after its {}", fr.input, if fr.hit { "hit" } else { "miss" }));
+                }
                 (0, 0)
             }
         };
@@ -514,6 +528,9 @@ pub fn run_history(seed: u64, idx: u64, st: &mut Stats, real: bool) -> (Vec<i128
     c.extend(ops.iter().map(|x| *x as i128));
     st.entries += rec.table.len() as u64;
     st.outputs += rec.records.len() as u64;
+    if let Some(why) = rec.skips.first() {
+        return (vec![], vec![], vec![format!("SKIP {why}")]);
+    }
     (c, r, rec.anomalies)
 }
 
@@ -532,6 +549,10 @@ pub fn main(args: &[String]) {
             let mut nanom = 0;
             for idx in start..start + n {
                 let (c, r, anom) = run_history(seed, idx, &mut st, real);
+                if let Some(a) = anom.first().filter(|a| a.starts_with("SKIP ")) {
+                    println!("SKIPPED {idx} {a}");
+                    continue;
+                }
                 println!("C {}", c.iter().map(|x| x.to_string()).collect::<Vec<_>>().join(" "));
                 println!("R {}", r.iter().map(|x| x.to_string()).collect::<Vec<_>>().join(" "));
                 for a in anom.iter().take(3) {
